@@ -151,8 +151,18 @@ def analyse(U, classes, groups):
     """real DEX objects for the groups of classes, one real Analysis over all of them"""
     dexm, anam = U.mod(DEXF), U.mod(ANA)
     dx = anam.Analysis()
-    for g in groups:
-        dx.add(dexm.DEX(dex_bytes([classes[i] for i in g])))
+    for k, g in enumerate(groups):
+        data = dex_bytes([classes[i] for i in g])
+        if len(groups) > 1 and sum(len(x) for x in groups) % 2:
+            # the SHA-1 signature field is not verified by androguard (only the Adler-32 checksum is): files rewritten by patchers,
+            # packers or assemblers carry a stale or zeroed one -- here: the same zeroed field in every file of the split
+            import struct as _struct
+            import zlib as _zlib
+            b = bytearray(data)
+            b[12:32] = bytes(20)
+            _struct.pack_into("<I", b, 8, _zlib.adler32(bytes(b[12:])) & 0xFFFFFFFF)
+            data = bytes(b)
+        dx.add(dexm.DEX(data))
     dx.create_xref()
     return dx
 
@@ -160,4 +170,5 @@ def analyse(U, classes, groups):
 NOTE = ("seeded random models of 2..4 classes (two static methods each, 0..5 instructions: invoke-* / invoke-*/range to internal, "
         "external and array-class methods, const-string and const-string/jumbo, new-instance / const-class incl. arrays, iget/iput/"
         "sget/sput variants on the class's own fields, nop) assembled into REAL DEX files by the independent writer: one merged file "
-        "and up to 13 splits into 2..3 files; real DEX parser and real Analysis, no stub objects")
+        "and up to 13 splits into 2..3 files (every other model with the unverified SHA-1 signature field zeroed in all files of a "
+        "split); real DEX parser and real Analysis, no stub objects")
